@@ -80,6 +80,11 @@ CHECKS = {
    "Extension level: histories of apply / rewind / reopen through the unit-of-work API the block pipeline uses, with synthetic blocks creating up to several thousand outputs (several chunks), spends concentrated in old chunks, at chunk boundaries, whole chunks, the last partial chunk, everything from a chunk on, and rewinds that shrink the output set across a chunk boundary; after every step the bitmap root inside the extension and as committed equals the root computed from scratch from the reference unspent index set with the harness's own MMR. Chain level: real mined blocks with forks, reorgs and reopen; committed root vs. from scratch over the replay model; each header's output_root equals H(size|pmmr_root|reference bitmap root); blocks committing to a wrong bitmap (bit dropped, bit added, extra chunk, empty) are rejected. Sampled exploration.",
    "Leaf indices of outputs are read from grin's output_pos index (checked by C02). Synthetic blocks use dummy range proofs (that path does not verify them) and mainnet size limits so that 1000-output blocks can be read back; every synthetic block creates at least one output, as every real block does.",
    "DESIGN.md §5 C15"),
+ "C16": ("pbt", "exploration",
+   "exhaustive small-tree enumeration + proptest store histories: honest segments vs. an instrumented reference reconstruction and every single-element corruption of what that reconstruction read; model-based end-to-end state sync (segments in generated arrival orders, state archive) between two real chains vs. a twin node that processed every block",
+   "seg / bitmapseg: every segment (heights 0..6, every index) of in-memory and store-backed PMMRs over generated and exhaustively enumerated spend / prune / compaction histories validates, survives its wire round trip and equals the root of the harness's own forest; each element the reference reconstruction read (leaf datum, leaf position, needed leaf, stand-in hash, proof hash, identifier) is corrupted singly and must be refused; elements it did not read are counted, not asserted. sync: a receiver holding only headers assembles the archive state from a real source chain (130+ real-PoW blocks, > 1024 outputs, optional compaction) through Chain::segmenter / Chain::desegmenter in the node's call order with shuffled, duplicated, unrequested and dropped segments, or from txhashset_read / txhashset_write (also with one MMR file changed); after completion head, roots, unspent enumeration, get_unspent of every commitment and validate(false) equal those of the twin and the header roots re-merged by the harness; with one corrupted segment the receiver never holds the archive head with other roots and an honestly re-served segment still completes the sync. Sampled exploration; exhaustive only for the stated small bounds.",
+   "Segment heights on the wire are restricted by the node to >= 7; the check uses the cfg(grin_verif) height override so that small chains yield 70..300 segments per tree. Chains start from a genesis with one reward output and kernel (the shape the desegmenter's position-0 handling assumes). Compaction on the source happens at head heights divisible by 10 (AutomatedTesting's horizon equals its state-sync threshold).",
+   "DESIGN.md §5 C16"),
  "C18": ("pbt", "exploration",
    "model-based stateful proptest of nested LMDB batches against a nested-transaction map model; seeded concurrent plans with generation-stamped batches across automatic map resizes; crash-point enumeration around Batch::commit",
    "seq: generated sequences of batch / child (3 levels) / put / delete / get / exists / iter / commit / drop, reads through the Store while a batch is open, iterators held across later operations, and reopen, compared with a stack-of-overlays map model. conc: writer threads commit generation-stamped batches (some dropped, some with committed or dropped children) until the map has grown several times while readers take iterator snapshots and one thread holds an iterator across a resize: no partial batch, no lost generation, no error. crash: every crash point around commits of generated batch trees is enumerated; content after reopen is exactly pre- or post-batch. Schedules are sampled, not controlled.",
